@@ -116,7 +116,7 @@ def specs(tier):
 
 
 def shards(tier):
-    return [(i, sc) for i in range(len(specs(tier))) for sc in (0, 1)] + [('big', 0)]
+    return [(i, sc) for i in range(len(specs(tier))) for sc in (0, 1)] + [('big', 0), ('processes', 0)]
 
 
 def bounds(tier):
@@ -161,7 +161,61 @@ def run_big(acc):
     tree.rmtree(td)
 
 
+def run_processes(acc):
+    """Real prince_ling.py processes with different string-hash seeds on a ruleset with tied words, digits and masks: the list is the same list in
+    every process - on standard output, in the -o file, and cut by --size inside a group of ties."""
+    import subprocess
+    import sys
+    td = tree.scratch_tree()
+    spec = dict(D.TERMINALS[0])
+    spec.update(A={2: [('ab', .25), ('cd', .25), ('ef', .25), ('gh', .25)], 4: [('love', .4), ('fish', .2), ('blue', .2), ('sexy', .2)]},
+                C={2: [('LL', .5), ('UL', .25), ('LU', .25)], 4: [('LLLL', .4), ('ULLL', .3), ('UUUU', .3)]},
+                D={2: [('12', .4), ('11', .15), ('22', .15), ('21', .15), ('69', .15)]},
+                grammar=[('D2', 1.0)], prince=[('A4', .4), ('D2', .35), ('A2', .25)])
+    R.write_ruleset(os.path.join(td, 'Rules', 'v'), spec)
+
+    def cli(seed, extra):
+        env = {k: v for k, v in os.environ.items() if k != 'PYTHONUNBUFFERED'}
+        env['PYTHONHASHSEED'] = seed
+        r = subprocess.run([sys.executable, '-B', os.path.join(td, 'prince_ling.py'), '-r', 'v'] + extra, stdin=subprocess.DEVNULL, capture_output=True, env=env, timeout=300)
+        return r.stdout.decode('utf-8', 'replace').split('\n')[:-1], r.returncode
+    for flags in ([], ['--all_lower']):
+        full, rc = cli('1', flags)
+        acc.evals += 1
+        if rc != 0 or not full:
+            acc.fail({'layer': 'processes', 'flags': flags}, 'prince_ling.py %s ended with status %r and %d words' % (' '.join(flags), rc, len(full)), 'raise')
+            continue
+        for seed in ('2', '3'):
+            other, _ = cli(seed, flags)
+            acc.evals += 1
+            acc.nontrivial += 1
+            if other != full:
+                k = next((i for i, (a, b) in enumerate(zip(other, full)) if a != b), min(len(other), len(full)))
+                acc.fail({'layer': 'processes', 'flags': flags, 'seed': seed}, 'two prince_ling.py processes (PYTHONHASHSEED 1 and %s) print different lists: word #%d is %r in one and %r in the other'
+                         % (seed, k + 1, full[k] if k < len(full) else None, other[k] if k < len(other) else None), 'processes-differ')
+            outp = os.path.join(td, 'out_%s.txt' % seed)
+            cli(seed, flags + ['-o', outp])
+            acc.evals += 1
+            try:
+                with open(outp, encoding='utf-8') as f:
+                    lines = f.read().split('\n')[:-1]
+            except Exception as e:
+                lines = ['<unreadable: %r>' % (e,)]
+            if lines != full:
+                acc.fail({'layer': 'processes', 'flags': flags, 'seed': seed, 'mode': 'file'}, 'the -o file of one process (PYTHONHASHSEED %s) is not the list another process prints (%d vs %d words)'
+                         % (seed, len(lines), len(full)), 'processes-file')
+            for N in (2, 3, 5, 7, len(full) - 1):
+                got, _ = cli(seed, flags + ['-s', str(N)])
+                acc.evals += 1
+                if got != full[:N]:
+                    acc.fail({'layer': 'processes', 'flags': flags, 'seed': seed, 'N': N}, '--size %d in one process (PYTHONHASHSEED %s) gives %r, the first %d words of the list another process prints are %r'
+                             % (N, seed, got, N, full[:N]), 'processes-prefix')
+    tree.rmtree(td)
+
+
 def run_shard(shard, tier, acc):
+    if shard[0] == 'processes':
+        return run_processes(acc)
     if shard[0] == 'big':
         return run_big(acc)
     i, sc = shard
@@ -241,6 +295,12 @@ def run_shard(shard, tier, acc):
 
 
 def replay(case):
+    if isinstance(case, dict) and case.get('layer') == 'processes':
+        from ..runner import Acc
+        acc = Acc()
+        run_processes(acc)
+        fs = [f for f in acc.failures if f['case'] == case]
+        return fs[0]['msg'] if fs else None
     from ..runner import Acc
     acc = Acc()
     if case['spec_index'] == 'big':
